@@ -79,6 +79,8 @@ class SemEnv:
                 stop = ms
                 from .ref import exc as rexc
                 rexc.take(st, ms)
+                if st.M == rstate.HYP:
+                    st.unknown.add("hsr")        # syndrome values are not modelled
         except Unpredictable:
             return None, out, "unpredictable"
         if out[0] != "ok":
